@@ -219,6 +219,7 @@ func (vc *VC) run() {
 	// parameters
 	for i, p := range fn.Params {
 		v := st.freshVal("p."+p.Name(), p.Type())
+		vc.rootParams = append(vc.rootParams, v)
 		fr.vals[p] = v
 		fr.names[p.Name()] = v
 		if tv, ok := v.(TV); ok && isRefLike(p.Type()) {
